@@ -12,7 +12,6 @@ import (
 	"time"
 
 	"github.com/irai/packet"
-	"github.com/irai/packet/fastlog"
 	"verifharness/drv"
 	"verifharness/gen"
 	"verifharness/ref"
@@ -61,7 +60,7 @@ var hIP6 = []netip.Addr{
 type histCfg struct {
 	LAN    int `json:"lan"`             // 0: /24, 1: /25, 2: /28
 	Timing int `json:"timing"`          // index into hTimings
-	Quiet  int `json:"quiet,omitempty"` // 1: the package logger is set to error level (a quiet deployment): behaviour must not depend on it
+	Quiet  int `json:"quiet,omitempty"` // log level of the package loggers: 0 default (info), 1 error only, 2 debug: behaviour must not depend on it
 }
 
 var hLANs = []struct {
@@ -405,9 +404,8 @@ func hwOf(m ref.MAC) net.HardwareAddr { return net.HardwareAddr(m[:]) }
 // runHistory executes h. On a violation of an enabled oracle it reports through rec (for
 // the property rec belongs to) and returns.
 func runHistory(tb drv.TB, rec *drv.Rec, sub string, h history, or histOracles) (res histResult) {
-	if h.Cfg.Quiet == 1 { // process-wide setting: histories run one after the other in a shard
-		packet.Logger.SetLevel(fastlog.LevelError)
-		defer packet.Logger.SetLevel(fastlog.LevelInfo)
+	if h.Cfg.Quiet != 0 { // process-wide setting: histories run one after the other in a shard
+		defer setLogLevel(h.Cfg.Quiet)()
 	}
 	s, conn := newSession(h.Cfg.nic())
 	defer closeSession(s)
